@@ -27,7 +27,8 @@ def deep_canon(v, T):
 
 
 def env_canon(env, T):
-    return ";".join("%s=%s" % (k, deep_canon(env._variables[k], T)) for k in sorted(env._variables))
+    b = core.env_bindings(env)
+    return ";".join("%s=%s" % (k, deep_canon(b[k], T)) for k in sorted(b))
 
 
 BINDINGS = [
